@@ -210,6 +210,8 @@ type Conn struct {
 	OnWrite   func(p []byte, k int) // called at the start of every Write call (no lock held)
 	BlockedAt time.Duration         // simulated time at which a WriteBlockAt fault first blocked (0 = never)
 	FaultAt   time.Duration         // simulated time of the first injected / timed-out write failure (0 = never)
+	PressedAt time.Duration         // simulated time at which a Write first waited for room in the peer's buffer (0 = never)
+	injected  error                 // read side broken by InjectReadErr: every Read fails, a blocked one at once
 }
 
 func (w *World) newPair(kind string, capacity int) (a, b *Conn) {
@@ -315,6 +317,14 @@ func (c *Conn) Read(p []byte) (int, error) {
 	for {
 		if c.isClosed() {
 			return 0, &net.OpError{Op: "read", Net: c.Kind, Err: errClosed}
+		}
+		c.mu.Lock()
+		inj := c.injected
+		c.mu.Unlock()
+		if inj != nil {
+			dsim.Probe("fault:read-error")
+			rec("net", c.Name+" read-fault "+inj.Error(), int64(c.ID))
+			return 0, inj
 		}
 		h := c.r
 		h.mu.Lock()
@@ -428,6 +438,11 @@ func (c *Conn) Write(p []byte) (int, error) {
 			c.mu.Unlock()
 		} else {
 			dsim.Probe("cov:write-backpressure")
+			c.mu.Lock()
+			if c.PressedAt == 0 {
+				c.PressedAt = dsim.Now() + 1
+			}
+			c.mu.Unlock()
 		}
 		timeout, closed := c.wait(h.wwake, c.deadline(false), c.unblockCh())
 		if closed {
@@ -523,6 +538,22 @@ func (c *Conn) WriteCount() int {
 	c.mu.Lock()
 	defer c.mu.Unlock()
 	return c.NWrites
+}
+
+// InjectReadErr breaks the read side of this end from now on (a device unplugged, a link gone
+// bad): a Read that is blocked returns the error at once, every later Read returns it too.
+func (c *Conn) InjectReadErr(err error) {
+	c.mu.Lock()
+	c.injected = err
+	c.mu.Unlock()
+	poke(c.r.rwake)
+}
+
+// Pressed reports whether (and since when) a Write on this end has had to wait for room.
+func (c *Conn) Pressed() (bool, time.Duration) {
+	c.mu.Lock()
+	defer c.mu.Unlock()
+	return c.PressedAt != 0, c.PressedAt
 }
 
 // Times returns when a block fault first blocked and when a write first failed.
